@@ -20,8 +20,8 @@ P = "C18"
 META = dict(
     level="model_checking",
     encoded=["SpecDataset.__init__/_wrapper/__getattr__", "SpecArray.dd/df and every observed statistic", "attributes.AttrDict / set_spec_attributes", "xarray accessor caching (one accessor instance per object)"],
-    encoded_files=["wavespectra/specdataset.py", "wavespectra/specarray.py", "wavespectra/core/attributes.py"],
-    bounds="all histories of length <= 2 (quick) / <= 3 (thorough) over the alphabet {accessor calls, replace efth by independent symbolic data, relabel dir with the same spacing, relabel dir with another spacing, unknown-statistic call, reader helper on another dataset, transform call}, on a DataArray and on a Dataset (grid 3x4 directions); after each history every observed operation must equal the same operation on a freshly built object with the same final contents; AttrDict by CrossHair on short string keys; the watershed's static buffers are covered by C04/C20 (engine L, consecutive calls with different shapes)",
+    encoded_files=["wavespectra/specdataset.py", "wavespectra/specarray.py", "wavespectra/core/attributes.py", "wavespectra/core/select.py", "wavespectra/partition/specpart/specpart.c"],
+    bounds="all histories of length <= 2 (quick) / <= 3 (thorough) over the alphabet {accessor calls, replace efth by independent symbolic data, relabel dir with the same spacing, relabel dir with another spacing, unknown-statistic call, reader helper on another dataset, transform call}, on a DataArray and on a Dataset (grid 3x4 directions); after each history every observed operation must equal the same operation on a freshly built object with the same final contents; AttrDict by CrossHair on short string keys; the watershed's static buffers by consecutive calls with different shapes (engine L, the harness of C04)",
     outside="histories longer than the bound; peak statistics and site selection only after the short histories of `peak_history` / `sel_history` (call, edit, call); IEEE rounding; other processes",
     assumptions=["spectrum bins are finite reals >= 0"],
 )
@@ -381,3 +381,10 @@ def _replay_xh(d):
 
 
 REGISTRY.setdefault(P, []).append(HarnessInstance(P, _crosshair, {}, ("quick", "thorough"), {"custom": True, "replay": _replay_xh}))
+
+# static work buffers of the C extension: a partition call after a call on another shape must equal the call from
+# a fresh state (the Engine-L harness of C04, run here as part of this property's own check)
+from vt.props import c04 as _c04  # noqa: E402
+
+for (a_, b_) in (((2, 3), (3, 2)), ((1, 4), (2, 2)), ((2, 2), (1, 4)), ((3, 2), (1, 6)), ((2, 2), (2, 3)), ((2, 3), (2, 2))):
+    REGISTRY.setdefault(P, []).append(HarnessInstance(P, _c04.consecutive_calls, dict(first=a_, second=b_, ihmax=2), ("quick", "thorough"), dict(max_paths=20000, time_budget=420, hard_timeout=800)))
